@@ -72,13 +72,18 @@ class Ctx:
         self.build_log = ''
         self.fingerprints = {}
         self.coqchk = None
+        self.boost = False
 
     @property
     def quick(self):
         return self.tier == 'quick'
 
     def n(self, quick, thorough):
-        return quick if self.quick else thorough
+        """case volume of this tier; when the source of a modelled function differs from the recorded fingerprint the quick
+        tier samples four times as much (mutation-directed testing), never more than the thorough volume"""
+        if not self.quick:
+            return thorough
+        return min(thorough, quick * 4) if self.boost and thorough > quick else quick
 
     def count(self, part, evaluations=0, nontrivial_keys=(), **dist):
         self.evaluations += evaluations
@@ -475,6 +480,7 @@ def write_evidence(ctx, meta, n_viol):
             'input_distribution': ctx.distribution,
             'modelled_not_verified': meta.get('modelled', []),
             'source_fingerprints': ctx.fingerprints,
+            'source_changed_since_model_was_written': ctx.boost,
             'coqchk': ctx.coqchk or 'not run in this tier (thorough tier runs coqchk -o on the property file and its dependencies)',
             'notes': ctx.notes,
             'exhaustive': bool(meta.get('exhaustive', False)),
